@@ -127,6 +127,7 @@ namespace pika::concurrency::detail {
 
                 index = expected_range.first;
                 desired_range = expected_range.increment_first();
+                PIKA_VERIF_POINT(80, this);
             } while (!current_range.data_.compare_exchange_weak(expected_range, desired_range));
 
             return std::make_optional<>(index);
@@ -148,6 +149,7 @@ namespace pika::concurrency::detail {
 
                 desired_range = expected_range.decrement_last();
                 index = desired_range.last;
+                PIKA_VERIF_POINT(81, this);
             } while (!current_range.data_.compare_exchange_weak(expected_range, desired_range));
 
             return std::make_optional(index);
